@@ -266,11 +266,18 @@ func (q *PathQuery) inlineCommon(st *PathState, call ssa.CallInstruction, retKey
 		evs := st.Events
 		if q.Event != nil && (st.armed || q.EventsBeforeFrom) {
 			for _, in := range cp.instrs {
-				if tag := q.Event(in); tag != "" {
+				tag := q.Event(in)
+				if tag != "" {
 					evs = addEvent(evs, Event{in, tag})
 				}
 				for _, t := range syncClosureTags(in, q.Event) {
 					evs = addEvent(evs, Event{in, t})
+				}
+				// a helper called by the helper (one more level): what it does on every path
+				if c2, ok := in.(*ssa.Call); ok && tag == "" && !q.NoSummaries {
+					for _, e := range mustEvents(c2, q.Event, 0) {
+						evs = addEvent(evs, e)
+					}
 				}
 			}
 		}
